@@ -61,7 +61,7 @@ PROPS["C11"] = {
 
 PROPS["C14"] = {
     "level": "proof",
-    "verus": {"propset": ["CodePage::from_id", "CodePage::id", "lemma_cp_roundtrip", "lemma_cp_of_id"]},
+    "verus": {"propset": ["CodePage::from_id", "CodePage::id", "lemma_cp_roundtrip", "lemma_cp_of_id", "ascii_encode"]},
     "assumptions": [
         "the encoding_rs tables ARE the Windows code pages their names designate and are self-inverse on representable characters (dependency data; the per-character law over 1,112,064 x 26 is NOT claimed)",
         "28591 (ISO-8859-1) -> WINDOWS_1252 is accepted: encoding_rs, the stated oracle, has no separate ISO-8859-1 table",
